@@ -12,6 +12,7 @@ type genCtx struct {
 	maxSub  int
 	maxDep  int
 	subProb int // percent per graph of containing a nested graph
+	deep    bool // small graphs nested to depth 4, every graph with state (node paths of length >= 4)
 }
 
 // Generate draws one case. Distribution (quick tier): 2..6 top-level nodes, nested graphs
@@ -25,6 +26,10 @@ func Generate(r *lib.Rng, tier string) *Case {
 	}
 	g.c.Input = r.Range(1, 9)
 	g.c.Seed = r.U64()
+	if g.c.Seed%32 == 7 { // no extra draw: the other cases are what they were
+		g.deep = true
+		g.maxTop, g.maxSub, g.maxDep, g.subProb = 2, 2, 4, 100
+	}
 	g.graph(0, "")
 	nc := r.Range(1, 3)
 	for i := 0; i < nc; i++ {
@@ -34,9 +39,6 @@ func Generate(r *lib.Rng, tier string) *Case {
 	g.lists()
 	g.c.Twice = r.Chance(1, 4)
 	g.c.NoStore = g.c.NoID && r.Chance(1, 2)
-	if !g.c.NoID && r.Chance(1, 40) {
-		g.c.SetFailAt = r.Range(1, 3)
-	}
 	return g.c
 }
 
@@ -131,6 +133,9 @@ func (g *genCtx) graph(depth int, parentMode string) int {
 	}
 	wf := gs.Mode == "wf"
 	gs.State = wf || r.Chance(7, 10)
+	if g.deep {
+		gs.State = true
+	}
 	ids := make([]int, n)
 	for i := range ids {
 		ids[i] = g.nextID
@@ -429,6 +434,9 @@ func (g *genCtx) graph(depth int, parentMode string) int {
 		pb, pa = 35, 5
 	case 2:
 		pb, pa = 5, 35
+	}
+	if g.deep && depth == g.maxDep {
+		pb, pa = 40, 10
 	}
 	for _, id := range ids {
 		if r.Intn(100) < pb {
